@@ -426,7 +426,7 @@ func runC11(r *Report) {
 			key := fmt.Sprintf("%s:%s %s", p.Name, lf.Method, lf.Template)
 			pos := s3.pos(lf.Pos)
 			// oracle alternatives
-			var want []string
+			var want, unsupported []string
 			bad := ""
 			for _, alt := range op.Security {
 				if len(alt) != 1 {
@@ -438,10 +438,16 @@ func runC11(r *Report) {
 					continue
 				}
 				if !alt[0].Supported() {
-					bad = "the requirement names scheme " + alt[0].Key + " of unsupported kind " + alt[0].Type + "/" + alt[0].Scheme + alt[0].In + ", which goag drops silently"
+					unsupported = append(unsupported, "the requirement names scheme "+alt[0].Key+" of unsupported kind "+alt[0].Type+"/"+alt[0].Scheme+alt[0].In+", which goag drops silently")
 					continue
 				}
 				want = append(want, alt[0].Credential())
+			}
+			// an unsupported alternative next to supported ones only makes the operation stricter
+			// (the handler still runs only after a listed alternative was accepted); alone it
+			// leaves the operation public
+			if len(unsupported) > 0 && len(want) == 0 && bad == "" {
+				bad = strings.Join(unsupported, "; ")
 			}
 			var got []string
 			unknown := ""
@@ -485,7 +491,11 @@ func runC11(r *Report) {
 					r.Violation("C11/sec-set", key, pos, fmt.Sprintf("authenticators accept [%s] but the operation's effective requirement is [%s]: %s", strings.Join(got, ", "), strings.Join(want, ", "), d))
 					continue
 				}
-				r.OK("C11/sec-set", key, pos, strings.Join(want, " | "))
+				note := ""
+				if len(unsupported) > 0 {
+					note = " (stricter than declared: " + strings.Join(unsupported, "; ") + ")"
+				}
+				r.OK("C11/sec-set", key, pos, strings.Join(want, " | ")+note)
 			}
 		}
 	}
